@@ -91,7 +91,7 @@ Qed.
 Print Assumptions C32_revno_is_lefthand_length.
 
 Example C32_consistent_inhabited :
-  consistent (init_state [[]; [0]; [1]; [0]; [2; 3]] (Some 4)) /\ consistent (init_state [[]; [0]] None).
+  consistent (init_state [[]; [0]; [1]; [0]; [2; 3]] (Some 4) false) /\ consistent (init_state [[]; [0]] None true).
 Proof. split; split; reflexivity. Qed.
 
 Theorem C32_push_then_pull_is_noop : forall c x s ow r x1,
@@ -102,7 +102,7 @@ Proof. exact push_then_pull_is_noop. Qed.
 Print Assumptions C32_push_then_pull_is_noop.
 
 Example C32_push_then_pull_nontrivial :
-  let x := init_state [[]; [0]; [1]; [0]; [2; 3]] (Some 1) in
+  let x := init_state [[]; [0]; [1]; [0]; [2; 3]] (Some 1) false in
   exists r x1, step cfg_vfs x (Push 4 false) = (r, x1) /\ (forall e, r <> OE e) /\ tip x1 = Some 4 /\ x1 <> x.
 Proof.
   eexists. eexists. split; [vm_compute; reflexivity|]. split; [intros e; discriminate|].
@@ -110,10 +110,13 @@ Proof.
 Qed.
 
 (* a refused call leaves the store unchanged, except that a diverged push/pull has already
-   fetched the revisions (what the code does on both paths) *)
+   fetched the revisions, and that a failing Sign on a knit-family repository keeps the
+   signatures made before the failure (what the code does on all paths) *)
 Theorem C32_refused_changes_nothing : forall c x o e x',
   step c x o = (OE e, x') ->
-  x' = x \/ (exists s ow, (o = Push s ow \/ o = Pull s ow) /\ x' = fetched x s).
+  x' = x \/ (exists s ow, (o = Push s ow \/ o = Pull s ow) /\ x' = fetched x s)
+  \/ (exists rs, o = Sign rs /\ knit x = true /\
+                 x' = with_signed x (merge_have (g x) (signed x) (present_prefix (have x) rs))).
 Proof. exact refused_changes_nothing. Qed.
 Print Assumptions C32_refused_changes_nothing.
 
@@ -121,6 +124,30 @@ Theorem C32_locked_refuses : forall c x o,
   locked x = true -> mutating o = true -> step c x o = (OE "LockContention"%string, x).
 Proof. exact locked_refuses. Qed.
 Print Assumptions C32_locked_refuses.
+
+(* a failed write attempt against a branch lock that was left behind (repository free) leaves the
+   repository free -- in particular a failed Lock does not lock the repository *)
+Theorem C32_stale_lock_refusals_leave_repository_free : forall c x o r x1 ob x2,
+  locked x = false -> step c x StaleLock = (r, x1) -> mutating o = true -> step c x1 o = (ob, x2) ->
+  ob = OE "LockContention"%string /\ x2 = x1 /\ rlocked x2 = false /\ locked x2 = true.
+Proof. exact stale_lock_refusals_leave_repository_free. Qed.
+Print Assumptions C32_stale_lock_refusals_leave_repository_free.
+
+(* every revision signed inside one write group ends up with a stored signature *)
+Theorem C32_sign_stores_all : forall c x rs ob x',
+  rlocked x = false -> (knit x = false \/ remote c = false \/ vfs c = true) ->
+  all_present (have x) rs = true ->
+  step c x (Sign rs) = (ob, x') ->
+  ob = OT "ok"%string /\
+  (forall r, r < length (g x) -> memb r (signed x') = memb r (signed x) || memb r rs) /\
+  have x' = have x /\ tip x' = tip x /\ locked x' = locked x /\ rlocked x' = false.
+Proof. exact sign_stores_all. Qed.
+Print Assumptions C32_sign_stores_all.
+
+Example C32_sign_nontrivial :
+  let x := init_state [[]; [0]; [1]; [0]; [2; 3]] (Some 4) false in
+  all_present (have x) [1; 3; 2] = true /\ signed (snd (step cfg_novfs x (Sign [1; 3; 2]))) = [1; 2; 3].
+Proof. split; reflexivity. Qed.
 
 (* BRZ_NO_SMART_VFS: the two VFS-only operations are refused and change nothing ... *)
 Theorem C32_novfs_refuses : forall x o,
